@@ -8,20 +8,20 @@ def match(shape, nd, cuts=None, maxchunk=1, label='split', tier='quick', timeout
         d['SPLIT'] = 1; d['CUTS'] = '{' + ','.join(str(c) for c in cuts) + ',999}'
         name += '.' + label
     else: name += '.bytewise'
-    k = maxchunk + 1
+    k = maxchunk + 1 if maxchunk == 1 else maxchunk + 2
     return Ob(name, 'mp/match.c', units=UM, models=['@libc_model.c', '@fixed_alloc.c', '@pieces_model.c'], remove=['htp_log', 'bstr_alloc', 'bstr_expand'], defines=d, unwind=8,
-              unwind_by=[(r'^harness\.', 60), (r'^htp_mpartp_parse\.6', k + 1), (r'^htp_mpartp_parse\.', k), (r'^htp_martp_process_aside', 6), (r'^htp_mpartp_init_boundary', 6), (r'^rec_data', k), (r'^strlen', 8), (r'^mk', 4), (r'^bstr_builder|^htp_list', max(9, k))],
+              unwind_by=[(r'^harness\.', 60), (r'^htp_mpartp_parse\.6', k + 1), (r'^htp_mpartp_parse\.', k), (r'^htp_martp_process_aside', 6), (r'^htp_mpartp_init_boundary', 6), (r'^rec_data|^feed', k + 1), (r'^strlen', 8), (r'^mk', 4), (r'^bstr_builder|^htp_list', max(9, k))],
               restrict_by=[(r'handle_data', 'rec_data'), (r'handle_boundary', 'rec_boundary')],
-              fp_strict=True, tier=tier, timeout=timeout, mem_gb=mem_gb, statement='matcher', bounds='shape %d, %d symbolic data bytes' % (shape, nd))
+              fp_strict=True, solver='cadical', tier=tier, timeout=timeout, mem_gb=mem_gb, statement='matcher', bounds='shape %d, %d symbolic data bytes' % (shape, nd))
 UP = ['bstr.c', 'htp_util.c', 'htp_utf8_decoder.c', 'htp_hooks.c']
-def part(variant, hc, dc, nd=2, tier='quick', timeout=600, mem_gb=8):
-    d = {'VARIANT': variant, 'HC': hc, 'DC': dc, 'ND': nd, 'FA_CAP': 72, 'PM_CAP': 72, 'PM_NP': 3, 'TM_MAXP': 3}
-    return Ob('part.v%d.hc%d.dc%d' % (variant, hc, dc), 'mp/part.c', units=UP, models=['@libc_model.c', '@fixed_alloc.c', '@pieces_model.c', '@table_model.c'], remove=['htp_log', 'bstr_alloc', 'bstr_expand'], defines=d, unwind=48,
-              unwind_by=[(r'^htp_list|^htp_table|^bstr_builder_clear|^bstr_builder_destroy', 8), (r'^htp_mpart_part_parse_c_d|^bstr_util_mem_index_of_mem\.0', 27), (r'^bstr_util_mem_index_of_mem\.1', 11), (r'^htp_mpart_decode_quoted', 5), (r'^bstr_util_cmp_mem_nocase', 21), (r'^strlen', 21), (r'^htp_mpartp_cd_param_type|^htp_parse_ct', 12)],
-              restrict_by=[(r'handle_data', 'htp_mpartp_handle_data'), (r'handle_boundary', 'htp_mpartp_handle_boundary'), (r'callback|->fn|\\.fn', 'cb_file')],
+def part(variant, hc, dc, nd=2, namesym=0, tier='quick', timeout=600, mem_gb=8, escq=1):
+    d = {'ESCQ': escq, 'VARIANT': variant, 'HC': hc, 'DC': dc, 'ND': nd, 'NAMESYM': namesym, 'FA_CAP': 72, 'PM_CAP': 72, 'PM_NP': 3, 'TM_MAXP': 3}
+    return Ob('part.v%d.hc%d.dc%d%s%s' % (variant, hc, dc, '.namesym' if namesym else '', '.bs' if (variant == 4 and not escq) else ''), 'mp/part.c', units=UP, models=['@libc_model.c', '@fixed_alloc_split.c', '@pieces_model.c', '@table_model.c', '@memcpy_loop.c'], remove=['htp_log', 'bstr_alloc', 'bstr_expand'], defines=d, unwind=62,
+              unwind_by=[(r'^htp_list|^htp_table|^bstr_builder_clear|^bstr_builder_destroy', 8), (r'^memcpy', 76), (r'^bstr_builder_to_str|^bstr_builder_append', 76), (r'^htp_mpart_part_parse_c_d|^bstr_util_mem_index_of_mem\.0', 27), (r'^bstr_util_mem_index_of_mem\.1', 11), (r'^htp_mpart_decode_quoted', 5), (r'^bstr_util_cmp_mem_nocase', 21), (r'^strlen', 21), (r'^htp_mpartp_cd_param_type|^htp_parse_ct', 12)],
+              flags=['--max-field-sensitivity-array-size', '128'], restrict_by=[(r'handle_data', 'htp_mpartp_handle_data'), (r'handle_boundary', 'htp_mpartp_handle_boundary'), (r'callback|->fn|\\.fn', 'cb_file')],
               fp_strict=True, tier=tier, timeout=timeout, mem_gb=mem_gb, statement='part layer', bounds='variant %d, header cut %d, data cut %d' % (variant, hc, dc))
-NPRE = {0: 10, 1: 10, 2: 7, 3: 14, 4: 0, 5: 5}
-NPOST = {0: 9, 1: 21, 2: 7, 3: 11, 4: 21, 5: 16}
+NPRE = {0: 10, 1: 10, 2: 7, 3: 14, 4: 0, 5: 5, 6: 12}
+NPOST = {0: 9, 1: 21, 2: 7, 3: 11, 4: 21, 5: 16, 6: 9}
 def chunks(shape, nd, sizes, start=None):
     """cut list: everything before `start` (default: start of D) one byte per call, then chunks of the given sizes, rest one byte per call"""
     tot = NPRE[shape] + nd + NPOST[shape]
@@ -32,5 +32,26 @@ def chunks(shape, nd, sizes, start=None):
     cuts += list(range(at + 1, tot + 1))
     return [c for c in cuts if c <= tot]
 def obligations(tier):
-    obs = [match(0, 2), match(0, 2, cuts=chunks(0, 2, [2, 2, 2]), maxchunk=2), part(0, 0, 0), part(0, 20, 1), match(0, 1, cuts=chunks(0, 1, [3], start=0), maxchunk=3, label='bnd_at_chunk_end')]
+    obs = []
+    # part layer: line length of variant 0 is 43 (41 + CRLF)
+    for v in (0, 1, 2, 3):
+        obs.append(part(v, 0, 0))
+    for hc in (1, 20, 39, 41, 42): obs.append(part(0, hc, 1))
+    obs.append(part(2, 45, 1)); obs.append(part(3, 42, 1))
+    obs.append(part(4, 0, 0)); obs.append(part(4, 0, 1, escq=0)); obs.append(part(4, 30, 1))
+    obs.append(Ob('param.text_parts', 'mp/param.c', units=['htp_content_handlers.c'], models=['@libc_model.c', '@pieces_model.c'], defines={'PM_NE': 4, 'PM_NP': 1, 'PM_CAP': 1}, unwind=6, tier='quick', timeout=300, mem_gb=4,
+                  statement='text parts, and only they, become body parameters in order with the same name and value strings; ownership handed over once; later calls refused', bounds='3 parts, every combination of part types'))
+    for q in (0, 1):
+        obs.append(Ob('boundary.find.q%d' % q, 'mp/findb.c', units=['htp_multipart.c', 'bstr.c', 'htp_util.c', 'htp_utf8_decoder.c'], models=['@libc_model.c', '@fixed_alloc_split.c', '@pieces_model.c', '@memcpy_loop.c'], remove=['htp_log', 'bstr_alloc', 'bstr_expand'],
+                      defines={'NB': 2, 'NBCONC': 2, 'QUOTED': q, 'FA_CAP': 48, 'PM_NE': 2, 'PM_NP': 1, 'PM_CAP': 1}, unwind=44, flags=['--max-field-sensitivity-array-size', '128'], tier='quick', timeout=600, mem_gb=8,
+                      statement='boundary parameter extracted exactly, no header anomaly flag, delimiter = CR LF -- boundary', bounds='literal boundary "bQ" (any symbolic boundary byte ran out of memory), %s' % ('quoted' if q else 'unquoted')))
+    # boundary matcher (cadical; 12 GB each): quick = one symbolic data byte in four framings, one byte per call, plus a 2-byte chunking;
+    # thorough = every framing with one and two symbolic bytes
+    for sh in (0, 1, 2, 6): obs.append(match(sh, 1, timeout=1200))
+    obs.append(match(0, 1, cuts=chunks(0, 1, [2, 2, 2, 2, 2]), maxchunk=2, label='chunks2', timeout=900))
+    if tier == 'thorough':
+        for sh in (3, 4, 5): obs.append(match(sh, 1, timeout=3000, mem_gb=16, tier='thorough'))
+        for sh in (0, 2, 6, 1, 3, 4, 5): obs.append(match(sh, 2, timeout=3600, mem_gb=24, tier='thorough'))
+        obs.append(match(0, 1, cuts=chunks(0, 1, [1, 2, 2, 2, 2, 1]), maxchunk=2, label='chunks2b', timeout=3000, mem_gb=16, tier='thorough'))
+        obs.append(match(0, 1, cuts=chunks(0, 1, [3, 3, 3, 1]), maxchunk=3, label='chunks3', timeout=3000, mem_gb=16, tier='thorough'))
     return obs
